@@ -1,6 +1,314 @@
-//! Monitor for C24 (see /verif/DESIGN.md §5 C24).
-use vcommon::Args;
+//! C24 — only fresh, well-formed, in-band oracle prices are used.
+//!
+//! Part A (acceptance): random feed contents / timestamps / clock moves / oracle settings, then the real
+//! `set_prices_from_price_feed` instruction with random token/feed lists. Whenever it succeeds (the
+//! oracle now holds prices) the acceptance conditions are recomputed independently from the inputs
+//! (the `PriceFeed` accounts, the store settings we configured, the clock). Part B (clearing): the
+//! exchange workload (`sim.rs`); after every successful `execute_*`/position-cut/ADL-state transaction
+//! — completed or soft-failed — the oracle account must be cleared.
+use crate::sim::{Op, Sim};
+use crate::world::{exchange::load, *};
+use anchor_lang::prelude::*;
+use gmsol_store::{accounts as sa, instruction as si, states::{Oracle, PriceFeed}};
+use gmsol_utils::oracle::PriceProviderKind;
+use vcommon::{
+    big::{b, pow10},
+    json,
+    monitor::run_shards,
+    num_bigint::BigInt,
+    Args, Monitor, Rng,
+};
 
-pub fn run(_args: &Args) -> Option<i32> {
-    None
+struct Settings {
+    max_age: u64,
+    max_range: u64,
+    max_future: u64,
+    /// per token: (timestamp adjustment, max deviation factor)
+    per_token: Vec<(u32, Option<u128>)>,
+}
+
+fn set_prices_ix(w: &World, authority: Pubkey, tokens: &[Pubkey], feeds: &[Pubkey]) -> Instruction {
+    let mut ix = six(
+        sa::SetPricesFromPriceFeed {
+            authority,
+            store: w.store,
+            oracle: w.oracle,
+            token_map: w.token_map,
+            chainlink_program: None,
+        },
+        si::SetPricesFromPriceFeed { tokens: tokens.to_vec() },
+    );
+    ix.accounts.extend(feeds.iter().map(|f| AccountMeta::new_readonly(*f, false)));
+    ix
+}
+
+fn clear_ix(w: &World, authority: Pubkey) -> Instruction {
+    six(sa::ClearAllPrices { authority, store: w.store, oracle: w.oracle }, si::ClearAllPrices {})
+}
+
+use anchor_lang::solana_program::instruction::{AccountMeta, Instruction};
+
+/// Exact unit price (USD·10^20 per smallest token unit) of a feed price as a rational `num/den`.
+fn unit_price_rational(value: u128, feed_decimals: u8, token_decimals: u8) -> (BigInt, BigInt) {
+    // value / 10^feed_decimals USD per whole token → × 10^20 / 10^token_decimals
+    let num = b(value) * pow10(20);
+    let den = pow10(feed_decimals as u32 + token_decimals as u32);
+    (num, den)
+}
+
+fn part_a(args: &Args, shard: u64, m: &mut Monitor) {
+    let mut rng = Rng::derive(args.seed, shard, 0x24);
+    let mut w = World::bootstrap_store();
+    w.bootstrap_oracle();
+    let toks = [
+        w.add_token("BTC", 8, 2, true),
+        w.add_token("SOL", 9, 4, false),
+        w.add_token("USDC", 6, 6, false),
+        w.add_token("ETH", 8, 3, true),
+    ];
+    let keeper = w.keeper;
+    let mut s = Settings { max_age: 3600, max_range: 300, max_future: 0, per_token: vec![(0, None); 4] };
+    let rounds = args.scale(60, 200);
+    for round in 0..rounds {
+        // --- settings
+        if rng.chance(1, 3) {
+            s.max_age = *rng.pick(&[0u64, 1, 5, 30, 60, 3600]);
+            let _ = w.insert_amount("oracle_max_age", s.max_age);
+        }
+        if rng.chance(1, 3) {
+            s.max_range = *rng.pick(&[0u64, 1, 3, 10, 300]);
+            let _ = w.insert_amount("oracle_max_timestamp_range", s.max_range);
+        }
+        if rng.chance(1, 3) {
+            s.max_future = *rng.pick(&[0u64, 1, 5, 60]);
+            let _ = w.insert_amount("oracle_max_future_timestamp_excess", s.max_future);
+        }
+        if rng.chance(1, 2) {
+            let t = rng.below(4) as usize;
+            let adj = *rng.pick(&[0u32, 1, 2, 10, 100]);
+            let dev: Option<u128> = match rng.below(4) {
+                0 => None,
+                1 => Some(UNIT / 1000),
+                2 => Some(UNIT / 100),
+                _ => Some(UNIT / 10),
+            };
+            let ix = six(
+                sa::SetFeedConfig { authority: keeper, store: w.store, token_map: w.token_map },
+                si::SetFeedConfigV2 {
+                    token: w.tokens[toks[t]].mint,
+                    provider: PriceProviderKind::ChainlinkDataStreams as u8,
+                    feed: None,
+                    timestamp_adjustment: Some(adj),
+                    max_deviation_factor: dev,
+                },
+            );
+            if w.send(&[ix], &[keeper]).is_ok() {
+                // `None` keeps the previous factor (only Some updates) — track accordingly.
+                s.per_token[t].0 = adj;
+                if dev.is_some() {
+                    s.per_token[t].1 = dev;
+                }
+                m.count("feed_config_updates");
+            }
+        }
+        // --- clock and feeds
+        w.svm.warp(rng.range_i64(1, 40));
+        for (i, t) in toks.iter().enumerate() {
+            if rng.chance(1, 5) {
+                continue; // leave this feed stale
+            }
+            let now = w.svm.clock.unix_timestamp;
+            let ts = now - rng.range_i64(0, 8) + if rng.chance(1, 6) { rng.range_i64(1, 6) } else { 0 };
+            let base: u128 = [60_000u128, 150, 1, 3_000][i] * crate::sim::E18;
+            let price = base / 1000 * rng.range(900, 1100) as u128;
+            let (bid, ask) = match rng.below(4) {
+                0 => (price, price),
+                1 => (price - price / 10_000, price + price / 10_000),
+                2 => (price - price / 100 * rng.range(0, 30) as u128, price + price / 100 * rng.range(0, 30) as u128),
+                _ => (price - price / 1000 * rng.range(0, 20) as u128, price + price / 1000 * rng.range(0, 20) as u128),
+            };
+            let r = w.report_for(*t, b(bid), b(price), b(ask), ts);
+            let ix = w.update_feed_ix(*t, r.compressed_full_report(), rng.bool(), keeper);
+            if w.send(&[ix], &[keeper]).is_ok() {
+                m.count("feed_updates_accepted");
+            } else {
+                m.count("feed_updates_rejected");
+            }
+        }
+        w.svm.warp(rng.range_i64(0, 12));
+        // --- the instruction under observation
+        let n = rng.range(1, 4) as usize;
+        let mut order: Vec<usize> = (0..4).collect();
+        rng.shuffle(&mut order);
+        let sel: Vec<usize> = order[..n].to_vec();
+        let tokens: Vec<Pubkey> = sel.iter().map(|i| w.tokens[toks[*i]].mint).collect();
+        let mut feeds: Vec<Pubkey> = sel.iter().map(|i| w.tokens[toks[*i]].feed).collect();
+        let mut swapped_feed = false;
+        if rng.chance(1, 8) {
+            // fault: another token's feed for the first token
+            let other = (sel[0] + 1 + rng.below(3) as usize) % 4;
+            feeds[0] = w.tokens[toks[other]].feed;
+            swapped_feed = true;
+        }
+        let pre_oracle_cleared = load::<Oracle>(&w.svm, &w.oracle).map(|o| o.is_cleared()).unwrap_or(false);
+        let res = w.send(&[set_prices_ix(&w, keeper, &tokens, &feeds)], &[keeper]);
+        m.eval();
+        let now = w.svm.clock.unix_timestamp;
+        match res {
+            Err(_) => {
+                m.count("set_prices_rejected");
+            }
+            Ok(_) => {
+                m.count("set_prices_accepted");
+                m.nontrivial(format!("accepted:{n}:{}:{}:{}", s.max_age, s.max_range, s.max_future).as_bytes());
+                let wit = |what: &str, extra: serde_json::Value| {
+                    json!({"shard": shard, "round": round, "what": what, "tokens": sel, "now": now,
+                           "max_age": s.max_age, "max_range": s.max_range, "max_future": s.max_future, "extra": extra})
+                };
+                if !pre_oracle_cleared {
+                    m.violation("C24:set_prices:accepted_although_prices_already_set", wit("oracle was not cleared", json!({})));
+                }
+                if swapped_feed {
+                    m.violation("C24:set_prices:unexpected_feed_accepted", wit("feed of another token accepted", json!({})));
+                }
+                let Some(oracle) = load::<Oracle>(&w.svm, &w.oracle) else {
+                    m.inconclusive("oracle account unreadable");
+                    return;
+                };
+                if oracle.is_cleared() {
+                    m.violation("C24:set_prices:succeeded_but_oracle_cleared", wit("", json!({})));
+                }
+                let mut adj_min = i64::MAX;
+                let mut adj_max = i64::MIN;
+                for (k, i) in sel.iter().enumerate() {
+                    let info = &w.tokens[toks[*i]];
+                    let Some(feed) = load::<PriceFeed>(&w.svm, &feeds[k]) else {
+                        continue;
+                    };
+                    let fp = feed.price();
+                    let ts = fp.ts();
+                    let (adj, dev) = s.per_token[*i];
+                    let adj_ts = ts - adj as i64;
+                    adj_min = adj_min.min(adj_ts);
+                    adj_max = adj_max.max(adj_ts);
+                    if (adj_ts as i128) + (s.max_age as i128) < now as i128 {
+                        m.violation("C24:set_prices:stale_price_accepted", wit("adjusted ts + max age < now", json!({"token": info.name, "ts": ts, "adj": adj})));
+                    }
+                    if (now as i128) + (s.max_future as i128) < ts as i128 {
+                        m.violation("C24:set_prices:future_price_accepted", wit("ts > now + max future excess", json!({"token": info.name, "ts": ts})));
+                    }
+                    let Ok(stored) = oracle.get_primary_price(&info.mint, true) else {
+                        m.violation("C24:set_prices:accepted_token_has_no_price", wit("", json!({"token": info.name})));
+                        continue;
+                    };
+                    if stored.min == 0 || stored.min > stored.max {
+                        m.violation("C24:set_prices:malformed_price_stored", wit("0 < min <= max violated", json!({"token": info.name, "min": stored.min.to_string(), "max": stored.max.to_string()})));
+                    }
+                    // stored bounds never outside the feed's own [min, max] (conversion truncates)
+                    let (min_n, min_d) = unit_price_rational(*fp.min_price(), fp.decimals(), info.decimals);
+                    let (max_n, max_d) = unit_price_rational(*fp.max_price(), fp.decimals(), info.decimals);
+                    if b(stored.max) * &max_d > max_n {
+                        m.violation("C24:set_prices:stored_max_above_feed_max", wit("", json!({"token": info.name})));
+                    }
+                    if b(stored.min) * &min_d > min_n {
+                        m.violation("C24:set_prices:stored_min_above_feed_min", wit("", json!({"token": info.name})));
+                    }
+                    // deviation from the reference (the feed's own `price`)
+                    if let Some(f) = dev {
+                        let (ref_n, ref_d) = unit_price_rational(*fp.price(), fp.decimals(), info.decimals);
+                        // |p - ref| <= ref*f/UNIT + ref*1e-5 (slack for the decimal rounding of the band)
+                        for (name, p) in [("max", stored.max), ("min", stored.min)] {
+                            let diff = (b(p) * &ref_d - &ref_n).magnitude().clone();
+                            let diff = BigInt::from(diff);
+                            // diff/ref_d <= ref_n/ref_d * (f/UNIT + 1e-5)  ⇔ diff*UNIT*1e5 <= ref_n*(f*1e5 + UNIT)
+                            let lhs = diff * b(UNIT) * b(100_000u64);
+                            let rhs = &ref_n * (b(f) * b(100_000u64) + b(UNIT));
+                            if lhs > rhs {
+                                m.violation(
+                                    "C24:set_prices:out_of_band_price_accepted",
+                                    wit("stored bound deviates from the reference by more than the configured factor", json!({"token": info.name, "bound": name, "stored": p.to_string(), "factor": f.to_string(), "feed_price": fp.price().to_string(), "feed_min": fp.min_price().to_string(), "feed_max": fp.max_price().to_string()})),
+                                );
+                            }
+                        }
+                        m.count("deviation_checked");
+                    }
+                }
+                if adj_max >= adj_min && (adj_max - adj_min) as i128 > s.max_range as i128 {
+                    m.violation("C24:set_prices:timestamp_range_exceeded", wit("spread of adjusted timestamps > max range", json!({"min": adj_min, "max": adj_max})));
+                }
+                if oracle.min_oracle_ts() != adj_min || oracle.max_oracle_ts() != adj_max {
+                    m.count("oracle_ts_range_differs_from_model");
+                }
+                // second set without clearing must be refused
+                if rng.chance(1, 3) {
+                    if w.send(&[set_prices_ix(&w, keeper, &tokens, &feeds)], &[keeper]).is_ok() {
+                        m.violation("C24:set_prices:accepted_although_prices_already_set", wit("second set_prices succeeded", json!({})));
+                    } else {
+                        m.count("second_set_rejected");
+                    }
+                }
+                if w.send(&[clear_ix(&w, keeper)], &[keeper]).is_err() {
+                    m.inconclusive("clear_all_prices failed");
+                    return;
+                }
+            }
+        }
+    }
+}
+
+use vcommon::serde_json;
+
+fn part_b(args: &Args, shard: u64, m: &mut Monitor) {
+    let steps = args.scale(250, 600);
+    let mut sim = Sim::new(args.seed, shard);
+    for step in 0..steps {
+        let rec = sim.step();
+        let uses_oracle = matches!(rec.op, Op::Execute { .. } | Op::Liquidate { .. } | Op::Adl { .. } | Op::UpdateAdl { .. } | Op::UpdateFees { .. });
+        if !uses_oracle || rec.result.is_none() {
+            continue;
+        }
+        m.eval();
+        let cleared = load::<Oracle>(&sim.w.svm, &sim.w.oracle).map(|o| o.is_cleared());
+        match cleared {
+            Some(true) => {
+                m.count(if rec.ok() { "oracle_cleared_after_successful_use" } else { "oracle_cleared_after_failed_use" });
+                if rec.ok() {
+                    m.nontrivial(format!("cleared:{}", rec.op.name()).as_bytes());
+                }
+            }
+            Some(false) => m.violation(
+                &format!("C24:{}:oracle_not_cleared_after_use", rec.op.name()),
+                json!({"shard": shard, "step": step, "ok": rec.ok(), "history": sim.history}),
+            ),
+            None => m.inconclusive("oracle account unreadable"),
+        }
+    }
+}
+
+pub fn run(args: &Args) -> Option<i32> {
+    let mut mon = Monitor::new(
+        args,
+        "A: random oracle settings (max age, timestamp range, future excess, per-token timestamp adjustment and max \
+         deviation), feed reports with random timestamps / bid-price-ask spreads, clock moves, then the real \
+         set_prices_from_price_feed with random token subsets (incl. another token's feed); every acceptance is \
+         re-derived from the feed accounts and settings. B: exchange workload; oracle must be cleared after every \
+         oracle-using transaction. non-trivial = an accepted price set (A) / a successful oracle-using transaction (B); \
+         distinct = (number of tokens, settings) resp. operation kind",
+    );
+    mon.assume("the reference price of a custom feed is the feed's own `price` field; band slack 1e-5 relative for decimal rounding");
+    mon.assume("heartbeat staleness and market-open rules (other properties) may reject more; only acceptances are judged");
+    let shards = args.scale(32, 128);
+    let quiet = hostsvm::QuietStdout::new();
+    run_shards(&mut mon, args.threads, shards, |shard, m| {
+        if shard % 2 == 0 {
+            part_a(args, shard, m);
+        } else {
+            part_b(args, shard, m);
+        }
+    });
+    drop(quiet);
+    mon.require("set_prices_accepted", 100);
+    mon.require("set_prices_rejected", 50);
+    mon.require("oracle_cleared_after_successful_use", 200);
+    Some(mon.finish())
 }
